@@ -44,12 +44,43 @@ theorem ec_pubkey_tweak_mul_sites : Facts.ec_pubkey_tweak_mul = [
     ⟨.pubkey_load, 1, true, none⟩
   ] := by decide
 
-def all : List CallFact := Facts.ec_seckey_tweak_add ++ Facts.ec_seckey_tweak_mul ++ Facts.ec_seckey_tweak_add_helper ++ Facts.ec_pubkey_tweak_add_helper ++ Facts.ec_pubkey_tweak_mul
+/-- `secp256k1_ec_pubkey_create_helper`: its fallible-primitive call sites are exactly these, each with its result / overflow flag
+    consumed as listed. -/
+theorem ec_pubkey_create_helper_sites : Facts.ec_pubkey_create_helper = [
+    ⟨.scalar_set_b32_seckey, 1, true, none⟩
+  ] := by decide
+
+/-- `secp256k1_ec_seckey_negate`: its fallible-primitive call sites are exactly these, each with its result / overflow flag
+    consumed as listed. -/
+theorem ec_seckey_negate_sites : Facts.ec_seckey_negate = [
+    ⟨.scalar_set_b32_seckey, 1, true, none⟩
+  ] := by decide
+
+/-- `secp256k1_ec_seckey_verify`: its fallible-primitive call sites are exactly these, each with its result / overflow flag
+    consumed as listed. -/
+theorem ec_seckey_verify_sites : Facts.ec_seckey_verify = [
+    ⟨.scalar_set_b32_seckey, 1, true, none⟩
+  ] := by decide
+
+/-- `secp256k1_keypair_seckey_load`: its fallible-primitive call sites are exactly these, each with its result / overflow flag
+    consumed as listed. -/
+theorem keypair_seckey_load_sites : Facts.keypair_seckey_load = [
+    ⟨.scalar_set_b32_seckey, 1, true, none⟩
+  ] := by decide
+
+/-- `secp256k1_scalar_set_b32_seckey`: its fallible-primitive call sites are exactly these, each with its result / overflow flag
+    consumed as listed. -/
+theorem scalar_set_b32_seckey_sites : Facts.scalar_set_b32_seckey = [
+    ⟨.scalar_set_b32, 1, false, some true⟩,
+    ⟨.scalar_is_zero, 1, true, none⟩
+  ] := by decide
+
+def all : List CallFact := Facts.ec_seckey_tweak_add ++ Facts.ec_seckey_tweak_mul ++ Facts.ec_seckey_tweak_add_helper ++ Facts.ec_pubkey_tweak_add_helper ++ Facts.ec_pubkey_tweak_mul ++ Facts.ec_pubkey_create_helper ++ Facts.ec_seckey_negate ++ Facts.ec_seckey_verify ++ Facts.keypair_seckey_load ++ Facts.scalar_set_b32_seckey
 
 /-- No overflow flag written by a scalar decoding in these functions is ignored (overwritten or never read). -/
 theorem no_flag_dropped : ∀ f ∈ all, f.flag ≠ some false := by decide
 
 /-- non-vacuity: the regenerated fact lists are not empty -/
-example : all.length = 8 := by decide
+example : all.length = 14 := by decide
 
 end SecpZkp.Props.C04_guards
